@@ -109,3 +109,8 @@ pub proof fn lemma_chunks_agree(cuts: Seq<nat>, k: nat, q: int)
     }
 }
 } // verus!
+
+verus! {
+pub assume_specification<T>[ <FileOrMemBuf<T> as core::default::Default>::default ]() -> (r: FileOrMemBuf<T>)
+    ensures fmb_items(r).len() == 0, fmb_cuts(r).len() == 0;
+} // verus!
